@@ -32,6 +32,11 @@
 (*                the process / on the format argument fmt[p]; TLC refutes them *)
 (*                (they are here so that the theorems are known to be sensitive *)
 (*                to the one design decision the property rests on).            *)
+(*                "steal": key = position, but a waiter whose wait has lasted   *)
+(*                "too long" unlinks the lock file and takes the lock itself     *)
+(*                (finite timeout + takeover).  Time is not modelled: a holder   *)
+(*                may be stalled arbitrarily long between any two of its steps,  *)
+(*                so the takeover is enabled whenever somebody waits.  Refuted.  *)
 EXTENDS Naturals, Sequences, FiniteSets, TLC
 
 CONSTANTS MaxP, MaxU, NPix, NPos, Cfgs
@@ -60,7 +65,7 @@ vars == <<cfg, lock, tile, pc, upd, buf, order, sawPartial, act>>
 PosOf(p, i) == cfg.pos[p][i]
 RegOf(p, i) == Range(cfg.reg[p][i])
 CurPos(p)  == PosOf(p, upd[p])
-KeyTag(p)  == CASE cfg.keymode = "pos"  -> 0
+KeyTag(p)  == CASE cfg.keymode \in {"pos", "steal"} -> 0
                 [] cfg.keymode = "proc" -> p
                 [] cfg.keymode = "fmt"  -> cfg.fmt[p]
 KeyOf(p)   == <<CurPos(p), KeyTag(p)>>
@@ -96,6 +101,17 @@ TryAcquire(p) ==
             /\ UNCHANGED <<lock, order>>
     /\ UNCHANGED <<cfg, tile, upd, buf, sawPartial>>
 TryOK(p) == TryAcquire(p) /\ pc'[p] = "locked"
+
+\* NOT in the code (design variant "steal"): a waiter gives up waiting, removes the lock file and creates its own
+StealLock(p) ==
+    /\ cfg.keymode = "steal"
+    /\ pc[p] = "trying"
+    /\ lock[KeyOf(p)] # 0
+    /\ lock' = [lock EXCEPT ![KeyOf(p)] = p]
+    /\ pc' = [pc EXCEPT ![p] = "locked"]
+    /\ order' = Append(order, <<p, upd[p]>>)
+    /\ act' = <<"StealLock", p>>
+    /\ UNCHANGED <<cfg, tile, upd, buf, sawPartial>>
 
 \* read_image(pos, default="masked"): a missing file gives an all-masked buffer
 Read(p) ==
@@ -133,10 +149,11 @@ WriteEnd(p) ==
     /\ act' = <<"WriteEnd", p>>
     /\ UNCHANGED <<cfg, lock, upd, buf, order, sawPartial>>
 
-\* SoftFileLock._release: unlink the lock file; then the caller goes on to its next update
+\* SoftFileLock._release: unlink the lock file (if it is still the one this process created); then the caller goes on
+\* to its next update
 Release(p) ==
     /\ pc[p] = "written"
-    /\ lock' = [lock EXCEPT ![KeyOf(p)] = 0]
+    /\ lock' = [lock EXCEPT ![KeyOf(p)] = IF @ = p THEN 0 ELSE @]
     /\ IF upd[p] < cfg.nupd[p]
        THEN upd' = [upd EXCEPT ![p] = upd[p] + 1] /\ pc' = [pc EXCEPT ![p] = "start"]
        ELSE upd' = upd /\ pc' = [pc EXCEPT ![p] = "done"]
@@ -144,7 +161,7 @@ Release(p) ==
     /\ UNCHANGED <<cfg, tile, buf, order, sawPartial>>
 
 Progress(p) == TryOK(p) \/ Read(p) \/ Modify(p) \/ WriteBegin(p) \/ WriteEnd(p) \/ Release(p)
-Step(p) == TryAcquire(p) \/ Read(p) \/ Modify(p) \/ WriteBegin(p) \/ WriteEnd(p) \/ Release(p)
+Step(p) == TryAcquire(p) \/ StealLock(p) \/ Read(p) \/ Modify(p) \/ WriteBegin(p) \/ WriteEnd(p) \/ Release(p)
 Next == \E p \in Procs : Step(p)
 \* every process keeps being scheduled; nothing is assumed about which waiter wins the lock
 Fairness == \A p \in Procs : WF_vars(Progress(p))
